@@ -25,6 +25,7 @@ valid_case = generic.valid_case
 def cases(seed, tier):
     yield from generic.interruption_cases(ID, seed, tier, dev_faults=0.2)
     yield from generic.resume_window_cases(ID, seed, tier)
+    yield from generic.endless_wait_cases(ID, seed, tier)
 
 
 def check(res):
